@@ -79,6 +79,9 @@ class ShapelyPolygon(Domain):
             # triangle shares add up to more than n. Thin out at random, stays uniform.
             points = points[torch.randperm(len(points), device=device)[:n]]
         points = self._check_enough_points_sampled(n, points, triangles, device)
+        # the points are ordered by triangle; shuffle, so that every row of a batch of
+        # parameters gets points from the whole polygon
+        points = points[torch.randperm(len(points), device=device)]
         return Points(points, self.space)
 
     def _sample_in_triangulation(self, t, n, device):
@@ -223,9 +226,12 @@ class ShapelyBoundary(BoundaryDomain):
     ):
         n = ShapelyPolygon._compute_number_of_points(self, n, d, params)
         line_points = torch.rand(n, device=device) * self.domain.polygon.boundary.length
-        return self._transform_points_to_boundary(
+        points = self._transform_points_to_boundary(
             n, torch.sort(line_points).values, device
         )
+        # the points are ordered along the outline; shuffle, so that every row of a
+        # batch of parameters gets points from the whole boundary
+        return points[torch.randperm(n, device=device),]
 
     def sample_grid(self, n=None, d=None, params=Points.empty(), device="cpu"):
         n = ShapelyPolygon._compute_number_of_points(self, n, d, params)
